@@ -35,3 +35,27 @@ Fixpoint list_eqb {A} (eqb : A -> A -> bool) (l1 l2 : list A) : bool :=
   | x :: t1, y :: t2 => eqb x y && list_eqb eqb t1 t2
   | _, _ => false
   end.
+
+(* a[i] = x on an array / Vec: None = index out of bounds *)
+Fixpoint list_upd {A} (l : list A) (i : nat) (x : A) : option (list A) :=
+  match l, i with
+  | [], _ => None
+  | _ :: r, O => Some (x :: r)
+  | y :: r, S k => do r' <- list_upd r k x; Some (y :: r')
+  end.
+
+(* &a[lo..hi]: None = lo > hi or hi > len *)
+Definition slice_range {A} (l : list A) (lo hi : nat) : option (list A) :=
+  if Nat.leb lo hi && Nat.leb hi (length l) then Some (firstn (hi - lo) (skipn lo l)) else None.
+
+(* u32 << k for a constant k < 32: bits shifted out are lost *)
+Definition u32_shl (x : N) (k : N) : N := (N.shiftl x k) mod 4294967296.
+
+(* char::to_digit(16) and char::is_ascii_hexdigit *)
+Definition char_to_digit16 (x : N) : option N :=
+  if (48 <=? x) && (x <=? 57) then Some (x - 48)
+  else if (97 <=? x) && (x <=? 102) then Some (x - 87)
+  else if (65 <=? x) && (x <=? 70) then Some (x - 55)
+  else None.
+Definition char_is_hexdigit (x : N) : bool :=
+  match char_to_digit16 x with Some _ => true | None => false end.
